@@ -68,6 +68,7 @@ func encoderWrites(f *eng.Fn) []ast.Node {
 
 func runC10(p *eng.Prog, r *eng.Report, tier string) {
 	c := &cx{p, r, tier}
+	r18ClosingTagWrittenOnce(c, "C10.23")
 	r17ReaderHandsOnTheDecodersError(c, "C10.22")
 	closedErrorNotClassified(c, "C10.18")
 	c10WhoClosesTheStreams(c, "C10.21")
